@@ -81,54 +81,83 @@ pub async fn main() -> Result<(), Box<dyn std::error::Error>> {
     let mut buf = String::with_capacity(4 * 1024);
 
     loop {
-        let (mut tcp_stream, _) = listener.accept().await?;
-
-        // Wait until a request was sent, dropping the bytes read when this scope ends
-        // to ensure we don't accidentally use them afterwards
-        {
-            // Receive all data until the header was fully received, or until max buf size
-            let mut buf = [0u8; 2048];
-            let mut bytes_read = 0;
-            loop {
-                bytes_read += tcp_stream.read(&mut buf[bytes_read..]).await?;
-
-                // The headers end with two CRLFs in a row
-                if buf[0..bytes_read].windows(4).any(|w| w == b"\r\n\r\n") {
-                    break;
-                }
-
-                // Headers should easily fit within the buffer
-                // If we have not found the end yet, we are not going to
-                if bytes_read >= buf.len() {
-                    tracing::warn!("Metrics connection request too long");
-                    continue;
-                }
-            }
-
-            // We only respond to GET requests
-            if !buf[0..bytes_read].starts_with(b"GET ") {
-                tracing::warn!("Metrics connection wasn't get");
+        let mut tcp_stream = match listener.accept().await {
+            Ok((tcp_stream, _)) => tcp_stream,
+            Err(e) => {
+                // e.g. the client reset the connection before we accepted it
+                log::warn!("could not accept metrics connection: {e}");
+                tokio::time::sleep(std::time::Duration::from_millis(10)).await;
                 continue;
             }
-        }
+        };
 
-        buf.clear();
-        match handler(&mut buf, &observation_socket_path).await {
-            Ok(()) => {
-                tcp_stream.write_all(buf.as_bytes()).await?;
-            }
-            Err(e) => {
-                log::warn!("error: {e}");
-                const ERROR_REPONSE: &str = concat!(
-                    "HTTP/1.1 500 Internal Server Error\r\n",
-                    "content-type: text/plain\r\n",
-                    "content-length: 0\r\n\r\n",
-                );
-
-                tcp_stream.write_all(ERROR_REPONSE.as_bytes()).await?;
-            }
+        // Whatever a client does on its connection only ever ends that
+        // connection, the exporter keeps serving the next one.
+        if let Err(e) =
+            handle_connection(&mut tcp_stream, &mut buf, &observation_socket_path).await
+        {
+            log::warn!("metrics connection failed: {e}");
         }
     }
+}
+
+async fn handle_connection(
+    tcp_stream: &mut tokio::net::TcpStream,
+    buf: &mut String,
+    observation_socket_path: &Path,
+) -> std::io::Result<()> {
+    // Wait until a request was sent, dropping the bytes read when this scope ends
+    // to ensure we don't accidentally use them afterwards
+    {
+        // Receive all data until the header was fully received, or until max buf size
+        let mut request = [0u8; 2048];
+        let mut bytes_read = 0;
+        loop {
+            let n = tcp_stream.read(&mut request[bytes_read..]).await?;
+            if n == 0 {
+                // the client went away before completing its request
+                return Ok(());
+            }
+            bytes_read += n;
+
+            // The headers end with two CRLFs in a row
+            if request[0..bytes_read].windows(4).any(|w| w == b"\r\n\r\n") {
+                break;
+            }
+
+            // Headers should easily fit within the buffer
+            // If we have not found the end yet, we are not going to
+            if bytes_read >= request.len() {
+                tracing::warn!("Metrics connection request too long");
+                return Ok(());
+            }
+        }
+
+        // We only respond to GET requests
+        if !request[0..bytes_read].starts_with(b"GET ") {
+            tracing::warn!("Metrics connection wasn't get");
+            return Ok(());
+        }
+    }
+
+    buf.clear();
+    match handler(buf, observation_socket_path).await {
+        Ok(()) => {
+            tcp_stream.write_all(buf.as_bytes()).await?;
+        }
+        Err(e) => {
+            log::warn!("error: {e}");
+            const ERROR_REPONSE: &str = concat!(
+                "HTTP/1.1 500 Internal Server Error\r\n",
+                "content-type: text/plain\r\n",
+                "content-length: 0\r\n\r\n",
+            );
+
+            tcp_stream.write_all(ERROR_REPONSE.as_bytes()).await?;
+        }
+    }
+
+    Ok(())
 }
 
 pub async fn read_json<'a, T>(
